@@ -880,16 +880,20 @@ fn enc_parse_error(e: &wirefilter::ParseError<'_>) -> Sexp {
             .and_then(|x| x.parse().ok())
             .unwrap_or(-1)
     };
-    // Display must not panic either (C05)
-    let shown = std::panic::catch_unwind(std::panic::AssertUnwindSafe(|| e.to_string())).is_ok();
+    // Display must not panic either (C05); its second line is the line of the input the error designates
+    let shown = std::panic::catch_unwind(std::panic::AssertUnwindSafe(|| e.to_string()));
     let mut v = vec![
         Sexp::sym(&kind),
         Sexp::int(num("line_number: ")),
         Sexp::int(num("span_start: ")),
         Sexp::int(num("span_len: ")),
     ];
-    if !shown {
-        v.push(Sexp::sym("display-panics"));
+    match shown {
+        Ok(text) => {
+            let line = text.split('\n').nth(1).unwrap_or("");
+            v.push(Sexp::Bytes(line.as_bytes().to_vec()));
+        }
+        Err(_) => v.push(Sexp::sym("display-panics")),
     }
     Sexp::tagged("err", v)
 }
